@@ -59,8 +59,25 @@ def hooks():
         elif X is not None and ("B" in X.flat().data or X.tag("corner_cloud")):
             I.emit("chroma_of_targets", e, X=X)
 
+    def post_slice(I, e, fn, args, kws, r):
+        """proj_P_to_simplex(P, c): the points where the edges of hull(P) cross the total c — same coordinates (axes, unit) as P, an
+        unknown number of rows, none of them all-zero (each has total c > 0)"""
+        P_ = args[0] if args else kws.get("P")
+        r = r.copy()
+        if P_ is not None and P_.shape is not None and not P_.shape.ell and P_.shape.axes:
+            from ..values import Shape
+            r.shape = Shape((None,) + tuple(P_.shape.axes[1:]))
+            r.unit, r.frame, r.sign = P_.unit, P_.frame, P_.sign
+            r.tags["kind"] = "ndarray"
+            r.tags["ndim"] = len(r.shape.axes)
+            if P_.tag("corner_cloud"):
+                r.tags["corner_cloud"] = True
+            r.tags.pop("maybe_zero_rows", None)
+        return r
+
     h.setdefault("pre", {})[BDR] = pre_bdr
     h.setdefault("post", {})[BDR] = post_bdr
+    h.setdefault("post", {})["dreye.api.project:proj_P_to_simplex"] = post_slice
     h.setdefault("pre", {})["dreye.api.project:alpha_for_B_with_P"] = pre_alpha
     return h
 
